@@ -345,6 +345,71 @@ theorem Spec.counter_le_clen_p10 (all : List Member) (allv : List Val) (s : Stri
           + Spec.clen (Spec.fieldChunks all allv n t k v)) (Spec.endsBlock (.mk n t k)) hfr hpr hhr hl.2 ⟨m, hr, hs⟩
       omega
 
+/-! ### a counter times the element size `do_decode_resize` divides by never exceeds the bytes that follow it -/
+
+/-- `resizeElem` is the element size of some member bound to the counter -/
+theorem Cpp.resizeElem_mem_r1 (n : String) (all : List Member) (hs : isSizer n all = true) :
+    ∃ m ∈ all, m.kind.sizer? = some n ∧ Cpp.resizeElem n all = Cpp.elemSz m.ty := by
+  rw [Cpp.resizeElem_eq]
+  cases hf : all.find? (fun m => decide (m.kind.sizer? = some n)) with
+  | none =>
+    exfalso
+    obtain ⟨m', hm', hs'⟩ := (isSizer_iff n all).1 hs
+    have := List.find?_eq_none.1 hf m' hm'
+    simp [hs'] at this
+  | some m =>
+    have h1 := List.mem_of_find?_eq_some hf
+    have h2 := List.find?_some hf
+    exact ⟨m, h1, by simpa using h2, rfl⟩
+
+theorem Spec.len_mul_le_clen_field_r1 (all : List Member) (allv : List Val) (n : String) (t : Ty) (k : MKind) (v : Val)
+    (hft : front t = true) (hpt : pyRt t = true) (hnu : isArrayKind k = true → (Py.stTy t).unl = false)
+    (hh : hasField all k t v = true) (s : String) (hk : k.sizer? = some s) :
+    v.len * Cpp.elemSz t ≤ Spec.clen (Spec.fieldChunks all allv n t k v) := by
+  unfold Cpp.elemSz
+  by_cases hc : Cpp.codecSize t > 0
+  · rw [if_pos hc]
+    have hkind := Cpp.kind0_of_codecSize_p10 t (by omega)
+    have hfxt := PL.fixed_of_kind t hft hkind
+    have hcse := Cpp.codecSize_kind0_p10 t hft hkind
+    rw [hcse, Int.toNat_natCast]
+    cases v with
+    | bytes b =>
+      have ht : t = .byte := by cases t <;> cases k <;> simp_all [hasField]
+      subst ht
+      cases k <;> simp_all [MKind.sizer?, Spec.fieldChunks, Spec.clen, Spec.Chunk.len, Val.len, Spec.sizeTy]
+    | arr xs =>
+      have hel : hasElems t xs = true := by cases t <;> simp_all [hasField]
+      have hcl := fixed_elems xs t hfxt hel
+      cases k <;> simp_all [MKind.sizer?, Spec.fieldChunks, Spec.clen_append, Val.len]
+    | _ => cases k <;> cases t <;> simp_all [MKind.sizer?, hasField]
+  · rw [if_neg hc, Nat.mul_one]
+    exact Spec.len_le_clen_field_p10 all allv n t k v hft hpt hnu hh s hk
+
+theorem Spec.counter_mul_le_clen_r1 (all : List Member) (allv : List Val) (s : String) : (ms : List Member) →
+    ∀ (vs : List Val) (before : List Member) (off : Nat) (ad : Bool),
+    frontMs all ms before = true → pyRtMs all ms before = true → hasMs all ms vs = true →
+    lensOk all allv ms vs → ∀ m ∈ ms, m.kind.sizer? = some s →
+    Spec.counter s all allv * Cpp.elemSz m.ty ≤ Spec.clen (Spec.chunksMs all allv ms vs off ad)
+  | [], _, _, _, _, _, _, _, _, m, hm, _ => by cases hm
+  | .mk n t k :: r, [], _, _, _, _, _, hh, _, _, _, _ => by simp [hasMs] at hh
+  | .mk n t k :: r, v :: vs, before, off, ad, hfm, hpm, hh, hl, m, hm, hs => by
+    obtain ⟨hft, _, hfr⟩ := Accept.frontMs_cons all n t k r before hfm
+    obtain ⟨hpt, _, _, h4, _, _, _, hpr⟩ := (Accept.pyRtMs_cons all n t k r before).1 hpm
+    obtain ⟨_, hf, hhr⟩ := (hasMs_cons all n t k r v vs).1 hh
+    simp only [lensOk] at hl
+    rw [Spec.chunksMs_cons]
+    simp only [clen_cons, Spec.clen_append]
+    rcases List.mem_cons.1 hm with rfl | hr
+    · have h1 := Spec.len_mul_le_clen_field_r1 all allv n t k v hft hpt h4 hf s hs
+      rw [← hl.1 s hs]
+      simp only [Member.ty]
+      omega
+    · have := Spec.counter_mul_le_clen_r1 all allv s r vs (before ++ [.mk n t k])
+        (off + padTo off (if ad = true then Spec.blockAlign (.mk n t k :: r) else Spec.alignMember (.mk n t k))
+          + Spec.clen (Spec.fieldChunks all allv n t k v)) (Spec.endsBlock (.mk n t k)) hfr hpr hhr hl.2 m hr hs
+      omega
+
 /-- uniqueness of names is positional -/
 theorem WF.uniq_not_mem_prefix_p10 (x : String) : (l1 l2 : List String) → WF.uniq (l1 ++ x :: l2) = true → x ∉ l1
   | [], _, _ => by simp
